@@ -6,6 +6,7 @@ from collections.abc import Iterable, Mapping
 from enum import Enum
 from typing import Any, Optional, Union
 
+from formulaic.utils.code import sanitize_variable_names
 from formulaic.utils.variables import Variable, get_expression_variables
 
 from .factor import Factor
@@ -206,10 +207,14 @@ class Token:
                 # TRANSFORMS namespace.
                 from formulaic.transforms import TRANSFORMS
 
+                # Back-quoted names are not valid Python: substitute them (as
+                # is done when evaluating the code) and map them back.
+                aliases: dict[str, str] = {}
+                expr = sanitize_variable_names(self.token, {}, aliases)
                 return set(
                     filter(
                         lambda variable: variable.split(".", 1)[0] not in TRANSFORMS,
-                        get_expression_variables(self.token),
+                        get_expression_variables(expr, aliases=aliases),
                     )
                 )
             except Exception:  # noqa: S110
